@@ -35,7 +35,8 @@ Definition c_foot (c : chunk) : N := c_data c + c_nswf c.
 Record tw := mkTw {
   tw_foot : N;   (* rewind_footer: address of the current footer on entry *)
   tw_ptr  : N;   (* rewind_ptr: the finger on entry *)
-  tw_res  : N    (* inner_result_ptr: where the Result<T,E> was reserved *)
+  tw_res  : N;   (* inner_result_ptr: where the Result<T,E> was reserved *)
+  tw_size : N    (* ghost: size of that slot (never read by the control flow) *)
 }.
 
 Record bump := mkBump {
@@ -98,6 +99,11 @@ Definition set_ptr (b : bump) (p : N) : bump :=
   | [] => b
   | c :: r => mkBump (with_ptr c p :: r) (limit b) (tws b)
   end.
+
+(* ChunkFooter::set_ptr: the finger is stored into the current footer unless that
+   footer is the shared static EMPTY_CHUNK, which is never written *)
+Definition stores_of (k : cfg) (b : bump) : list N :=
+  match chunks b with [] => [] | c :: _ => [c_foot c] end.
 
 (* ---------- try_alloc_layout_fast ---------- *)
 Definition fast_ptr (k : cfg) (start ptr : N) (l : layout) : option N :=
@@ -191,7 +197,7 @@ Definition slow (k : cfg) (A : acquirer) (b : bump) (l : layout) : bump * out :=
 (* try_alloc_layout *)
 Definition try_alloc (k : cfg) (A : acquirer) (b : bump) (l : layout) : bump * out :=
   match fast k b l with
-  | Some (p, b1) => (b1, mkOut (ROk p) [] [cur_foot k b] [] [] [])
+  | Some (p, b1) => (b1, mkOut (ROk p) [] (stores_of k b) [] [] [])
   | None => slow k A b l
   end.
 
@@ -199,7 +205,7 @@ Definition try_alloc (k : cfg) (A : acquirer) (b : bump) (l : layout) : bump * o
 Definition dealloc (k : cfg) (b : bump) (p : N) (l : layout) : bump * out :=
   if cur_ptr k b =? p then
     (set_ptr b (rup (p + l_size l) (k_malign k)),
-     mkOut RUnit [] [cur_foot k b] [] [] [])
+     mkOut RUnit [] (stores_of k b) [] [] [])
   else (b, out_of RUnit).
 
 (* ---------- shrink ---------- *)
@@ -221,7 +227,7 @@ Definition shrink (k : cfg) (A : acquirer) (b : bump) (p : N) (old new : layout)
     let delta := rdown (l_size old - l_size new) (N.max (l_align new) (k_malign k)) in
     if (cur_ptr k b =? p) && ((l_size old + 1) / 2 <=? delta) then
       (set_ptr b (p + delta),
-       mkOut (ROk (p + delta)) [] [cur_foot k b]
+       mkOut (ROk (p + delta)) [] (stores_of k b)
              [mkCopy CopyNonOverlapping p (p + delta) (l_size new)] [] [])
     else (b, out_of (ROk p)).
 
@@ -237,7 +243,7 @@ Definition grow (k : cfg) (A : acquirer) (b : bump) (p : N) (old new : layout)
         if layout_ok delta (l_align old) then
           match fast k b (mkLayout delta (l_align old)) with
           | Some (q, b1) =>
-              (b1, mkOut (ROk q) [] [cur_foot k b] [mkCopy CopyMove p q (l_size old)] [] [])
+              (b1, mkOut (ROk q) [] (stores_of k b) [mkCopy CopyMove p q (l_size old)] [] [])
           | None => fallback
           end
         else (b, out_of RErr)
@@ -310,7 +316,7 @@ Definition tw_begin (k : cfg) (A : acquirer) (b : bump) (l : layout) : bump * ou
   let rp := cur_ptr k b in
   let r := try_alloc k A b l in
   match o_res (snd r) with
-  | ROk p => (push_tw (fst r) (mkTw foot rp p), snd r)
+  | ROk p => (push_tw (fst r) (mkTw foot rp p (l_size l)), snd r)
   | _ => r
   end.
 
@@ -323,9 +329,9 @@ Definition tw_end (k : cfg) (b : bump) (ok : bool) : bump * out :=
       if ok then (b0, out_of (ROk (tw_res t)))
       else if cur_ptr k b0 =? tw_res t then
         if cur_foot k b0 =? tw_foot t
-        then (set_ptr b0 (tw_ptr t), mkOut RErr [] [cur_foot k b0] [] [] [])
+        then (set_ptr b0 (tw_ptr t), mkOut RErr [] (stores_of k b0) [] [] [])
         else (set_ptr b0 (rdown (cur_foot k b0) (k_malign k)),
-              mkOut RErr [] [cur_foot k b0] [] [] [])
+              mkOut RErr [] (stores_of k b0) [] [] [])
       else (b0, out_of RErr)
   end.
 
